@@ -616,6 +616,11 @@ func isRightInclude(b byte) (bool, error) {
 
 func doParseKeyAndOptions(field reflect.StructField, value string) (string, *fieldOptions, error) {
 	segments := parseSegments(value)
+	if len(segments) == 0 {
+		// 标签仅含空白字符：既无键也无选项，按字段名处理。
+		return "", nil, nil
+	}
+
 	key := strings.TrimSpace(segments[0])
 	options := segments[1:]
 
